@@ -8,6 +8,7 @@ ASSUME = [
     "all runs of a group share one FFT wisdom directory that was warmed up by a discarded run (same wisdom => same plans); nothing is claimed across different wisdom files",
     "/Particles is compared only between runs with the same tracking file and a deterministic tracking model (FPTrack 0-2): the stochastic model seeds itself from random_device",
     "RF noise off (the property excludes noise); deterministic phase modulation is used in a fifth of the groups, incl. /RFKicks in the comparison",
+    "every run but the reference gets another glibc allocator fill byte (MALLOC_PERTURB_), so that a result that depends on uninitialised heap memory differs between 'identical' runs instead of happening to agree on fresh zero pages",
     "records are matched by step number (time * steps per period, rounded); all runs of a group must end at the same step",
     "one group in eight is a diverging configuration (Fokker-Planck step beyond the explicit scheme's stable range: NaN/inf after a few dozen steps); NaN records are compared bit for bit like any others",
 ]
@@ -95,7 +96,10 @@ def run_group(args):
                 for k in range(v["_tracking"]):
                     fh.write("%.4f %.4f\n" % (rr.uniform(-4, 4), rr.uniform(-4, 4)))
             o["tracking"] = "trk.txt"
-        res = prog.run_inovesa("rel", o, wd, xdg, timeout=900)
+        # "equal inputs give equal outputs" must not hinge on what freshly allocated memory happens to contain: every run of the group gets a
+        # different allocator fill byte (glibc MALLOC_PERTURB_: malloc'd and freed memory is filled with it) - not a parameter of the program
+        env = {"MALLOC_PERTURB_": str(1 + (37 * vi + 11 * g) % 254)} if vi > 0 else None
+        res = prog.run_inovesa("rel", o, wd, xdg, timeout=900, env=env)
         bad = prog.program_outcome_key(res)
         if bad or res["rc"] != 0 or not os.path.exists(os.path.join(wd, oname)):
             out["incon"].append("group %d variant %d did not produce a file: %s %s" % (g, vi, bad, res["err"][-200:]))
